@@ -110,6 +110,15 @@ impl BlteBuilder {
             };
             self.chunks.push(chunk);
         } else {
+            // A chunk size of 0 can never consume non-empty data
+            if self.chunk_size == 0 {
+                return Err(BlteError::InvalidChunkSize {
+                    size: 0,
+                    min: 1,
+                    max: MAX_CHUNK_SIZE,
+                });
+            }
+
             // Multiple chunks - block indices continue after the chunks already added
             let mut offset = 0;
             let mut chunk_index = self.chunks.len();
@@ -161,6 +170,15 @@ impl BlteBuilder {
             };
             self.chunks.push(chunk);
         } else {
+            // A chunk size of 0 can never consume non-empty data
+            if self.chunk_size == 0 {
+                return Err(BlteError::InvalidChunkSize {
+                    size: 0,
+                    min: 1,
+                    max: MAX_CHUNK_SIZE,
+                });
+            }
+
             // Multiple chunks
             let mut offset = 0;
             let mut chunk_index = self.chunks.len();
@@ -338,6 +356,36 @@ mod tests {
         // Test unchecked method allows any size
         let builder = BlteBuilder::new().with_chunk_size_unchecked(100); // Very small
         assert_eq!(builder.chunk_size, 100);
+    }
+
+    #[test]
+    fn test_builder_zero_chunk_size_is_an_error() {
+        // with_chunk_size_unchecked(0) must not loop forever on non-empty data
+        let result = BlteBuilder::new()
+            .with_chunk_size_unchecked(0)
+            .add_data(b"x");
+        assert!(matches!(
+            result,
+            Err(BlteError::InvalidChunkSize { size: 0, .. })
+        ));
+
+        let result = BlteBuilder::new()
+            .with_chunk_size_unchecked(0)
+            .add_mixed_data(b"x", None);
+        assert!(matches!(
+            result,
+            Err(BlteError::InvalidChunkSize { size: 0, .. })
+        ));
+
+        assert!(BlteFile::compress(b"x", 0, CompressionMode::None).is_err());
+
+        // Empty data still fits into a single (empty) chunk
+        assert!(
+            BlteBuilder::new()
+                .with_chunk_size_unchecked(0)
+                .add_data(b"")
+                .is_ok()
+        );
     }
 
     #[test]
